@@ -40,7 +40,7 @@ func (sim) Rule(prop string) string {
 	case "C13":
 		return base + "after every operation: TxDetails, UniqueTxDetails (own / nil / wrong block), PreviousPkScripts for every universe transaction and RangeTransactions over fixed and random ranges, forwards, backwards and with early stop."
 	case "C14":
-		return base + fmt.Sprintf("after every operation: Store.UnminedTxs called %d times (fresh map order each time) must be a parents-first permutation of the unconfirmed set; plus DependencySort called directly on generated graph shapes.", R)
+		return base + fmt.Sprintf("after every operation: Store.UnminedTxs called %d times (a different seeded map iteration order each time) must be a parents-first permutation of the unconfirmed set; plus DependencySort called directly on generated graph shapes.", R)
 	}
 	return base
 }
